@@ -323,7 +323,9 @@ def run_case(c):
     try:
         # -- step requested; mesh actually used; grid positions ------------
         user = STEPS[c['step_case']]
-        nominal = nominal_grids(n_in, lo, hi)
+        # probing builds carry the same number of in-bundle grids as the final
+        # one (the CTD / UCTD flow split, hence the stability limit, depends on it)
+        nominal = nominal_grids(n_in, lo, hi) if gc in MESH_DEPENDENT else place_grids(gc, None, lo, hi)
         if user == 'half':
             req0, _ = probe(c, None, nominal)
             extra['builds'] += 1
@@ -574,7 +576,7 @@ def run_case(c):
         r['info'] = {'dz_used': used, 'how': how, 'steps': nstep, 'total': total, 'friction': sum(fr),
                      'spacer_grid': sum(sg), 'gravity': sum(gr), 'grids_in_bundle': len(want),
                      'grids_counted': counted, 'grid_ok': grid_ok, 'grid_z': grid_z,
-                     'worst_rel_residual': worst, 'regime': regime}
+                     'worst_rel_residual': float(worst), 'regime': regime}
         return r
     finally:
         b.close()
